@@ -108,6 +108,17 @@ func (s *RPCServer) handleWS(ctx context.Context, w http.ResponseWriter, r *http
 
 	lbl := pprof.Labels("jrpc-mode", "wsserver", "jrpc-remote", r.RemoteAddr, "jrpc-uuid", uuid.New().String())
 	pprof.Do(ctx, lbl, func(ctx context.Context) {
+		// the connection loop acts on the end of ctx only between two actions, and some of
+		// its actions write to the connection (a reverse request) or wait for whoever is
+		// writing to it; a write lasts as long as the peer takes to read. Closing the
+		// connection fails that write, and the loop gets to see that it has to stop.
+		go func() {
+			select {
+			case <-ctx.Done():
+				_ = c.Close()
+			case <-wc.exiting:
+			}
+		}()
 		wc.handleWsConn(ctx)
 	})
 
